@@ -113,8 +113,8 @@ func (v *objectValidator) feedObjectValueBegin() ([]validator, bool) {
 	}
 
 	// child node not found on schema object
-	if c := v.node_.Constraint(constraint.RequiredKeysConstraintType); c != nil {
-		key, ok := v.validateTypeRules(v.lastFoundKeyLex.Value())
+	if objectNode.Keys().HasShortcuts() {
+		key, ok := v.validateTypeRules(objectNode, v.lastFoundKeyLex.Value())
 		if ok {
 			child, ok := objectNode.ChildByRawKey([]byte(key))
 			if ok {
@@ -142,8 +142,14 @@ func (v objectValidator) requiredKeysString() string {
 }
 
 // validate with rules
-func (v objectValidator) validateTypeRules(value jbytes.Bytes) (string, bool) {
-	for key := range v.requiredKeys {
+func (v objectValidator) validateTypeRules(objectNode *schema.ObjectNode, value jbytes.Bytes) (string, bool) {
+	// Every key shortcut of the object is tried, in declaration order, whether
+	// it is required or optional and whether it has matched before.
+	for _, k := range objectNode.Keys().Data {
+		if !k.IsShortcut {
+			continue
+		}
+		key := k.Key
 		typ, ok := v.rootSchema.TypesList()[key]
 		if !ok {
 			continue
